@@ -94,7 +94,15 @@ Definition mstate0 : mstate := {| st_fs := []; st_cache := [] |}.
 
 Inductive event :=
 | Write (p : string) (c : content)      (* the file at p now holds c *)
-| Load (q : request).                   (* a model calls load_cropped_and_aligned_image with arguments q *)
+| Load (q : request)                    (* a model calls load_cropped_and_aligned_image with arguments q *)
+| LoadRaw (p : string).                 (* a direct pyxel.inputs load (load_image / load_table) of the whole file *)
+
+(* what a direct loader call returns from the file as it is now: the stored array, whole *)
+Definition raw_load (fs : fs_t) (p : string) : option mat :=
+  match fs_get fs p with
+  | Some (_, _, a) => Some a
+  | None => None                         (* FileNotFoundError *)
+  end.
 
 Section Memo.
 Variable fitf : content -> request -> option mat.     (* None = raises *)
@@ -128,6 +136,7 @@ Fixpoint run (st : mstate) (h : list event) : list (option mat) :=
   | [] => []
   | Write p c :: t => run {| st_fs := fs_put (st_fs st) p c; st_cache := st_cache st |} t
   | Load q :: t => let '(st', r) := do_load st q in r :: run st' t
+  | LoadRaw p :: t => raw_load (st_fs st) p :: run st t      (* the pyxel.inputs loaders keep no state *)
   end.
 
 End Memo.
@@ -139,6 +148,7 @@ Fixpoint fresh_run (fitf : content -> request -> option mat) (fs : fs_t) (h : li
   | [] => []
   | Write p c :: t => fresh_run fitf (fs_put fs p c) t
   | Load q :: t => compute fitf fs q :: fresh_run fitf fs t
+  | LoadRaw p :: t => raw_load fs p :: fresh_run fitf fs t
   end.
 
 (* histories in which no file is written again after it has been loaded *)
@@ -147,6 +157,7 @@ Fixpoint no_rewrite (loaded : list string) (h : list event) : bool :=
   | [] => true
   | Write p _ :: t => negb (existsb (String.eqb p) loaded) && no_rewrite loaded t
   | Load q :: t => no_rewrite (q_file q :: loaded) t
+  | LoadRaw _ :: t => no_rewrite loaded t
   end.
 
 (* ---------------------------------------------------------------- case files *)
